@@ -1,4 +1,5 @@
 pub mod conc;
+pub mod fuzz;
 pub mod map;
 pub mod misc;
 pub mod ram;
@@ -9,6 +10,7 @@ pub fn dispatch(t: &[&str]) -> String {
         "vlq.enc" | "vlq.dec" | "vlq.range" => vlq::run(t),
         "map.dec" | "map.enc" | "map.rt" | "map.lookup" => map::run(t),
         "relpath" => misc::run(t),
+        "bytes.all" => fuzz::run(t),
         "conc.run" => conc::run(t),
         "ram.parse" | "ram.wf" => ram::run(t),
         _ => "bad-op".into(),
